@@ -62,7 +62,7 @@ def run():
     ck.cov['rule'] = ('every opcode byte 0..255 with seeded dst/src/mod/imm (boundary classes: 0, +-1, 2^k, 2^k+-1, sign bit, aligned addresses), forced src==dst, dst=r5, mod.cond>=14, '
                       'CBRANCH with condition bits near zero, CFROUND rotate counts; register values from carry-chain corner classes, group F/E/A values incl. exact cancellation, +inf, near-overflow; both versions; 4 rounding modes')
     ck.sample(lines[0][:900])
-    ck.sample([l for l in lines if l.startswith('{"e":"fp"')][0])
+    ck.sample(([l for l in lines if l.startswith('{"e":"fp"')] or [''])[0])
     ck.assumptions += ['RxPrim!FpOp (Java, exact BigDecimal error sign on top of strict IEEE doubles) is trusted and is compared with the host FPU on every fp event',
                        'operand values are sampled: 2^64 values per register cannot be enumerated']
     if not res['rejected']:
